@@ -45,6 +45,7 @@ InitW(th) == [
     blockedOn |-> 0,          \* the error being sent while the error channel is full
     hookEnd  |-> 0,           \* the error hook (another task; kept here) is busy with a slow handler until then
     errGen   |-> 0,           \* how often the error handler has replaced itself: which one is installed
+    hookCur  |-> 0,           \* the error the hook has received and not yet handed to the handler (0: none)
     minThr   |-> th,          \* history: smallest / largest throttle read in the current cycle
     maxThr   |-> th,
     batches  |-> <<>>,        \* history: [ids, at, first, urgent, thr]
@@ -210,21 +211,31 @@ MainEndsOk ==
 ---------------------------------------------------------------------------
 \* The error hook: errors.recv() -> handler -> handle_crit
 
-\* A handler that takes a while keeps the hook from receiving the next error until it is done; the
-\* worker and everything else go on (and the worker may then block on the full error channel).
-ErrHookStep(t) ==
-    /\ main = "run" /\ errq # <<>> /\ t >= W.hookEnd
-    /\ LET e == Head(errq) IN
-       /\ errq' = Tail(errq)
-       \* the installed handler is called (a handler that replaces itself does so from inside the
-       \* call: this error is still its own, the next one goes to the new handler)
-       /\ W' = Emit([W EXCEPT !.out = <<>>, !.hookEnd = t + evs[e].errhold,
-                               !.errGen = IF evs[e].onerr = "replace" THEN @ + 1 ELSE @],
-                     Ev("error", e, W.errGen, IF evs[e].onerr = "replace" THEN "ignore" ELSE evs[e].onerr, "", 0))
+\* The error hook is a task of its own: it receives the next error (which frees a place in the error
+\* channel), then calls the installed handler with it.  A handler that takes a while keeps the hook from
+\* receiving the next error until it is done; the worker and everything else go on (and the worker may
+\* then block on the full error channel).  Its observations are not part of W.out: they may fall
+\* anywhere between those of a worker step.
+HookObs(e) == Ev("error", e, W.errGen, IF evs[e].onerr = "replace" THEN "ignore" ELSE evs[e].onerr, "", 0)
+
+ErrHookTake(t) ==
+    /\ main = "run" /\ errq # <<>> /\ W.hookCur = 0 /\ t >= W.hookEnd
+    /\ errq' = Tail(errq)
+    /\ W' = [W EXCEPT !.hookCur = Head(errq)]
+    /\ now' = t
+    /\ UNCHANGED <<evs, cap, ecap, queue, pending, main, hist>>
+
+\* the installed handler is called (a handler that replaces itself does so from inside the call: this
+\* error is still its own, the next one goes to the new handler)
+ErrHookCall(t) ==
+    /\ main = "run" /\ W.hookCur # 0
+    /\ LET e == W.hookCur IN
+       /\ W' = [W EXCEPT !.hookCur = 0, !.hookEnd = t + evs[e].errhold,
+                         !.errGen = IF evs[e].onerr = "replace" THEN @ + 1 ELSE @]
        /\ main' = IF evs[e].onerr \in {"elevate", "critical"} THEN "failing" ELSE "run"
        /\ hist' = [hist EXCEPT !.errSeen = (e :> (IF e \in DOMAIN @ THEN @[e] ELSE 0) + 1) @@ @]
     /\ now' = t
-    /\ UNCHANGED <<evs, cap, ecap, queue, pending>>
+    /\ UNCHANGED <<evs, cap, ecap, queue, pending, errq>>
 
 \* the main task returns the critical error; its JoinSet is dropped and every worker with it
 MainFails ==
@@ -241,7 +252,7 @@ WorkerEnabled(t) ==
        \/ W.pc = "errsend" /\ Len(errq) < ecap
        \/ W.pc = "ended"
 
-HookEnabled(t) == main = "run" /\ errq # <<>> /\ t >= W.hookEnd
+HookEnabled(t) == main = "run" /\ (W.hookCur # 0 \/ (errq # <<>> /\ t >= W.hookEnd))
 SendEnabled == pending # {} /\ (~QueueOpen \/ Cardinality(queue) < cap)
 
 AnyEnabled(t) == WorkerEnabled(t) \/ HookEnabled(t) \/ SendEnabled \/ main = "failing"
@@ -249,7 +260,7 @@ AnyEnabled(t) == WorkerEnabled(t) \/ HookEnabled(t) \/ SendEnabled \/ main = "fa
 NextDeadline ==
     LET ds == (IF Alive /\ W.pc = "collect" /\ W.set # <<>> /\ W.deadline > now THEN {W.deadline} ELSE {})
               \cup (IF Alive /\ W.pc = "handler" /\ W.hEnd > now THEN {W.hEnd} ELSE {})
-              \cup (IF main = "run" /\ errq # <<>> /\ W.hookEnd > now THEN {W.hookEnd} ELSE {})
+              \cup (IF main = "run" /\ W.hookCur = 0 /\ errq # <<>> /\ W.hookEnd > now THEN {W.hookEnd} ELSE {})
     IN  IF ds = {} THEN Inf ELSE CHOOSE d \in ds : \A x \in ds : d <= x
 
 =============================================================================
